@@ -1,16 +1,19 @@
-"""C12 export / import of every module (work group genesis)"""
+"""C12 export / import of every module (work group genesis).
+
+One stream per module; the stream descriptions live in check/propsd/c12_streams/<module>.py
+(STREAM = dict(name, quick, thorough, check_module, check_fn, codes, nontrivial))."""
+import glob as _glob, os as _os, importlib.util as _ilu
+
 PROPS = {}
 
-_STREAMS = [
-    # name, quick, thorough, Coq module, check fn, clause code -> classification key
-    ("record", 60, 1500, "Genesis.Record", "check_record", {
-        1: "record-export-does-not-validate", 2: "record-import-panics",
-        32: "record-second-export-loses-records", 42: "record-record-lost-on-import",
-        31: "record-ids-change-on-import", 41: "record-ids-change-on-import"}),
-    ("htlc", 60, 1500, "Genesis.Htlc", "check_htlc", {
-        1: "htlc-export-does-not-validate", 2: "htlc-import-panics", 3: "htlc-second-export-differs",
-        4: "htlc-query-differs-after-import", 5: "htlc-expiration-queue-not-rebuilt"}),
-]
+_ORDER = ["record", "htlc", "mt", "farm", "oracle", "random", "token", "coinswap", "nft", "service", "all"]
+_streams = []
+for _p in sorted(_glob.glob(_os.path.join(_os.path.dirname(_os.path.abspath(__file__)), "c12_streams", "*.py"))):
+    _spec = _ilu.spec_from_file_location("c12_stream_" + _os.path.basename(_p)[:-3], _p)
+    _m = _ilu.module_from_spec(_spec)
+    _spec.loader.exec_module(_m)
+    _streams.append(_m.STREAM)
+_streams.sort(key=lambda s: _ORDER.index(s["name"]) if s["name"] in _ORDER else 99)
 
 PROPS["C12"] = dict(
     driver="genesis",
@@ -18,14 +21,15 @@ PROPS["C12"] = dict(
     coq_targets=["Genesis/Check.vo"],
     check_module="Genesis.Check",
     check_fn="check_all",
-    streams=[dict(name=n, quick=q, thorough=t, check_module=m, check_fn=f, codes=c, coq_shard=40)
-             for (n, q, t, m, f, c) in _STREAMS],
+    streams=[dict(coq_shard=40, **{k: v for k, v in s.items() if k != "nontrivial"}) for s in _streams],
     rule="per module stream: a generated history of that module's messages (and of the modules it depends on) "
          "with block boundaries on chain A; then ExportGenesis(A) -> ValidateGenesis -> InitGenesis into the wiped "
          "module store of a fresh chain B (bank and auth state of A imported first) under recover() -> "
          "ExportGenesis(B) -> module state / gRPC queries on A and B; both as-is and after the module's own "
          "PrepForZeroHeightGenesis; non-trivial = the exported state holds at least one open time-bound object and "
-         "one emptied balance or tally, in the module's own terms (see notes/genesis.md); distinct = by hash of the history",
+         "one emptied balance or tally, in the module's own terms: "
+         + "; ".join("%s: %s" % (s["name"], s.get("nontrivial", "")) for s in _streams)
+         + "; distinct = by hash of the history",
     codes={},
     explain={},
     trusted_base=["hash-derived identifiers are modelled by their pre-images (record) or interned with numbers that "
